@@ -164,7 +164,7 @@ def main():
             "replay_cmd_template": f"./check {pid} --replay {{path}}",
             "engine": "vf",
             "level_claimed": {"category": "exploration", "text": c["text"] + (PLUMB if pid in PLUMBED else "") + " Input classes and histories were widened over "
-                              "eleven rounds of independently written breaking changes (DESIGN.md section 5; selftest/RESULTS.md).",
+                              "thirteen rounds of independently written breaking changes and reviews (DESIGN.md section 5; selftest/RESULTS.md).",
                               "design_ref": f"DESIGN.md section {c['ref']}"},
             "level_note": c.get("note", TRUSTED),
             "technique": c["technique"],
